@@ -49,6 +49,11 @@ type chainRec struct {
 	Culprit  string   `json:"culprit,omitempty"`
 	Blobs    []string `json:"store_blobs"`
 	Delivery []string `json:"delivery_order,omitempty"`
+	// expiry witnesses: the "expires" of the share at the head of the chain, the clock the share
+	// handler saw (schema.VerifSetClock; "" = the real clock) and the model's now
+	HeadExpires string `json:"head_share_expires,omitempty"`
+	Clock       string `json:"controlled_clock,omitempty"`
+	Now         string `json:"model_now,omitempty"`
 }
 
 func chainURL(chain []blob.Ref, assemble, prefixed bool) string {
@@ -123,6 +128,14 @@ func (s *site) rec(method, u string, chain []blob.Ref, assemble bool, code, body
 		idx[i] = s.w.label(r)
 	}
 	c.CaseID = fmt.Sprintf("%s;%s;%s;%s", s.w.id, s.mode, method, strings.Join(idx, ">"))
+	if h := s.w.nodes[chain[0]]; h != nil && h.hasExpiry {
+		c.HeadExpires = h.expiresRaw
+		c.Now = s.w.now.UTC().Format(time.RFC3339Nano)
+	}
+	if s.w.clock != "" {
+		c.Clock = s.w.clock
+		c.CaseID += ";clock=" + s.w.clock
+	}
 	for _, b := range s.w.blobs {
 		c.Blobs = append(c.Blobs, s.w.label(b.Ref)+" = "+b.Ref.String())
 	}
@@ -191,6 +204,16 @@ func (s *site) check(r *ev.Run, t *tally, method string, chain []blob.Ref, assem
 		mustRefuse = true
 		reason = "assemble-nontransitive"
 	}
+	if cls := w.expClass[chain[0]]; cls != "" {
+		switch {
+		case v.reason == "expired":
+			t.note("expiry_judged", cls+"/expired")
+		case !mustRefuse && v.mayRefuse:
+			t.note("expiry_judged", cls+"/unexpired-loose-form")
+		case !mustRefuse:
+			t.note("expiry_judged", cls+"/unexpired")
+		}
+	}
 	if mustRefuse {
 		t.note("refusal_reasons_exercised", reason)
 	} else {
@@ -232,6 +255,9 @@ func (s *site) check(r *ev.Run, t *tally, method string, chain []blob.Ref, assem
 			want = w.fileContent[last]
 		}
 		switch {
+		case !ok2xx && v.mayRefuse && code < 500:
+			// the share's "expires" is in a form a strict reader may call malformed: a clean refusal is allowed
+			t.note("expiry_outcomes", "loose-form-unexpired/refused")
 		case !ok2xx:
 			c := s.culprit(chain, v, assemble)
 			rc := s.rec(method, u, chain, assemble, code, len(body), model)
@@ -290,14 +316,27 @@ func (s *site) exhaustive(r *ev.Run, method string, c0 int, distinct bool) {
 			r.Distinct(sb.String())
 		}
 	}
+	maxLen := w.maxLen
+	if maxLen == 0 {
+		maxLen = 4
+	}
 	one()
 	for _, a := range refs {
+		if maxLen < 2 {
+			break
+		}
 		chain = append(chain[:1], a)
 		one()
 		for _, b := range refs {
+			if maxLen < 3 {
+				break
+			}
 			chain = append(chain[:2], b)
 			one()
 			for _, c := range refs {
+				if maxLen < 4 {
+					break
+				}
 				chain = append(chain[:3], c)
 				one()
 			}
@@ -419,10 +458,63 @@ func newSite(w *world, mode string, ms *memory.Storage, ix *hw.Idx) (*site, erro
 	return s, nil
 }
 
+// mount delivers the store's blobs to a fresh index (in dependency order or shuffled), re-opens
+// a second index over a copy of its rows and returns the share handlers over both.  ok=false with
+// a nil slice: the run cannot continue (inconclusive); ok=false with an empty slice: skip the store.
+func mount(r *ev.Run, w *world, shuffle bool, orng *rand.Rand) (sites []*site, delivery string, ok bool) {
+	id := w.id
+	ms := &memory.Storage{}
+	live, err := hw.NewIdx(nil, ms, false)
+	if err != nil {
+		r.Inconclusive("index.New: " + err.Error())
+		return nil, "", false
+	}
+	order := make([]int, len(w.blobs))
+	for k := range order {
+		order[k] = k
+	}
+	delivery = "dependency-order"
+	if shuffle {
+		orng.Shuffle(len(order), func(a, b int) { order[a], order[b] = order[b], order[a] })
+		delivery = "shuffled"
+	}
+	for _, k := range order {
+		if err := live.Deliver(w.blobs[k]); err != nil {
+			r.Inconclusive(fmt.Sprintf("store %s: deliver %s: %v", id, w.label(w.blobs[k].Ref), err))
+			return nil, "", false
+		}
+	}
+	live.Quiesce()
+	r.Note("delivery", delivery)
+	cp, err := hw.CopyKV(live.KV)
+	if err != nil {
+		r.Inconclusive("copy rows: " + err.Error())
+		return nil, "", false
+	}
+	re, err := hw.NewIdx(cp, ms, false)
+	if err != nil {
+		r.Violation("reopen-fails", fmt.Sprintf("store %s: opening a fresh index over the persisted rows failed: %v", id, err), map[string]any{"case_id": id})
+		return []*site{}, delivery, false
+	}
+	for _, m := range []struct {
+		mode string
+		ix   *hw.Idx
+	}{{"live", live}, {"reopened", re}} {
+		s, err := newSite(w, m.mode, ms, m.ix)
+		if err != nil {
+			r.Inconclusive("share handler constructor: " + err.Error())
+			return nil, "", false
+		}
+		sites = append(sites, s)
+	}
+	return sites, delivery, true
+}
+
 func part1(r *ev.Run) {
 	server.VerifSetShareDelay(func(time.Duration) {})
 	r.Assume("Part 1 calls the share handler's ServeHTTP directly (httptest recorder), half of the requests with the path headers the server's PrefixHandler sets; the anti-probing sleep is disabled through the verif hook")
-	r.Assume("a share whose expiry lies in 1990 is expired and one whose expiry lies in 2200 is not (no verdict depends on the wall clock otherwise)")
+	r.Assume("under the real clock, a share whose expiry lies before 2021 is expired and one whose expiry lies after 2037 is not; no generated expiry lies in between (no verdict depends on the wall clock otherwise)")
+	r.Assume("the instant 0001-01-01T00:00:00Z (Go's zero time, which perkeep's Time3339 marshals as null = unset) is never generated as an expiry")
 	r.Assume("deletion status is the delete.md fixpoint over delete claims signed by the store's owner key")
 	nStores := r.Pick(4, 32)
 	wrng := r.Rand("stores")
@@ -437,47 +529,14 @@ func part1(r *ev.Run) {
 			continue
 		}
 		worlds = append(worlds, w)
-		ms := &memory.Storage{}
-		live, err := hw.NewIdx(nil, ms, false)
-		if err != nil {
-			r.Inconclusive("index.New: " + err.Error())
-			return
-		}
-		order := make([]int, len(w.blobs))
-		for k := range order {
-			order[k] = k
-		}
-		delivery := "dependency-order"
-		if (i+i/len(templates))%2 == 1 {
-			orng.Shuffle(len(order), func(a, b int) { order[a], order[b] = order[b], order[a] })
-			delivery = "shuffled"
-		}
-		for _, k := range order {
-			if err := live.Deliver(w.blobs[k]); err != nil {
-				r.Inconclusive(fmt.Sprintf("store %s: deliver %s: %v", id, w.label(w.blobs[k].Ref), err))
+		ss, delivery, ok := mount(r, w, (i+i/len(templates))%2 == 1, orng)
+		if !ok {
+			if ss == nil {
 				return
 			}
-		}
-		live.Quiesce()
-		r.Note("delivery", delivery)
-		cp, err := hw.CopyKV(live.KV)
-		if err != nil {
-			r.Inconclusive("copy rows: " + err.Error())
-			return
-		}
-		re, err := hw.NewIdx(cp, ms, false)
-		if err != nil {
-			r.Violation("reopen-fails", fmt.Sprintf("store %s: opening a fresh index over the persisted rows failed: %v", id, err), map[string]any{"case_id": id})
 			continue
 		}
-		for mode, ix := range map[string]*hw.Idx{"live": live, "reopened": re} {
-			s, err := newSite(w, mode, ms, ix)
-			if err != nil {
-				r.Inconclusive("share handler constructor: " + err.Error())
-				return
-			}
-			sites = append(sites, s)
-		}
+		sites = append(sites, ss...)
 		r.Note("templates", tpl)
 		for f := range w.features {
 			r.Note("store_features", f)
@@ -497,6 +556,12 @@ func part1(r *ev.Run) {
 			r.Sample(map[string]any{"store": id, "blobs": len(w.blobs), "kinds": kinds, "delivery": delivery, "chains_per_method_and_index": chainCount(len(w.order))})
 		}
 	}
+	expWorlds, expSites, ok := expiryStores(r)
+	if !ok {
+		return
+	}
+	worlds = append(worlds, expWorlds...)
+	sites = append(sites, expSites...)
 	r.Extra("part1_stores", len(worlds))
 	// jobs
 	type job func()
@@ -529,6 +594,7 @@ func part1(r *ev.Run) {
 		}()
 	}
 	wg.Wait()
+	expiryPhaseB(r, expWorlds, expSites)
 	if os.Getenv("VERIF_ONLY") != "" {
 		return // a replay runs one store; coverage requirements apply to full runs only
 	}
@@ -546,6 +612,7 @@ func part1(r *ev.Run) {
 		"share-deleted", "share-deleted-then-undeleted", "share-foreign-authtype", "share-search", "nested-bytes", "static-set-mergeSets",
 		"static-set-plain", "permanode", "decoys")
 	r.Require("delivery", "dependency-order", "shuffled")
+	requireExpiry(r)
 	if r.Thorough() {
 		r.Require("store_features", "share-deleted-twice-one-undone", "share-T-claim", "share-T-permanode")
 	}
